@@ -44,3 +44,38 @@ package cms
 //@   ensures fresh(pubKey)
 //@   defines err == nil ==> ecKeyOf(subPubKeyInfo.SubjectPublicKey.Bytes, subPubKeyInfo.Algorithm.Parameters.FullBytes, ref(*curve), pubKey.X.val, pubKey.Y.val)
 //@   assigns nothing
+
+// ---------------------------------------------------------------- C01: CMS layer boundary
+// The CMS / X.509 layer (SignedData.Verify: signer certificate selection, signed-attribute digest, signature primitive,
+// chain building against the pool, validity and usage checks) works on encoding/asn1 structures and is outside the
+// modelled subset. It is a trusted boundary here: sdVerified(sd, pool) names "Verify accepted this SignedData against this
+// pool"; the pool helpers are characterised by what passive authentication needs (a country-filtered copy).
+//@ uf sdVerified(ref, ref) bool
+//@ uf poolCountry(ref) seq            // ghost: the country a filtered pool was built for (alpha-2)
+//@ uf poolSource(ref) ref             // ghost: the pool object a filtered pool was built from
+//@ func (sd *SignedData) Verify
+//@   trusted
+//@   requires sd != nil
+//@   ensures err != nil ==> certChain == nil
+//@   ensures fresh(certChain)
+//@   defines err == nil ==> sdVerified(ref(sd), ref(trustedCerts))
+//@   assigns nothing
+//@ func (p CertPool) ByIssuerCountry(countryAlpha2 string) (result []Certificate)
+//@   trusted
+//@   requires p != nil
+//@   ensures fresh(result)
+//@   defines seqid(byCountryOf(ref(result)), countryAlpha2) && byCountryFrom(ref(result)) == ref(p)
+//@   assigns nothing
+//@ uf byCountryOf(ref) seq
+//@ uf byCountryFrom(ref) ref
+//@ func (certPool *GenericCertPool) AddCerts
+//@   trusted
+//@   requires certPool != nil
+//@   defines len(old(certPool.certificates)) == 0 ==> seqid(poolCountry(ref(certPool)), byCountryOf(ref(certificates))) && poolSource(ref(certPool)) == byCountryFrom(ref(certificates))
+//@   ensures len(certPool.certificates) == len(old(certPool.certificates)) + len(certificates)
+//@   assigns certPool.certificates
+//@ func (certPool *GenericCertPool) Count
+//@   trusted
+//@   requires certPool != nil
+//@   ensures result == len(certPool.certificates)
+//@   pure
